@@ -12,8 +12,9 @@ VERIF = os.path.dirname(os.path.dirname(os.path.abspath(__file__)))
 REPO = os.environ.get('S3V_REPO', '/repo')
 LEAN_DIR = os.path.join(VERIF, 'lean')
 DRIVER = os.path.join(LEAN_DIR, '.lake', 'build', 'bin', 's3vdriver')
-EVIDENCE_DIR = os.path.join(VERIF, 'evidence')
-REPLAY_DIR = os.path.join(VERIF, 'replays')
+EVIDENCE_DIR = os.environ.get('S3V_EVIDENCE_DIR') or os.path.join(VERIF, 'evidence')
+REPLAY_DIR_OVERRIDE = os.environ.get('S3V_REPLAY_DIR')
+REPLAY_DIR = os.environ.get('S3V_REPLAY_DIR') or os.path.join(VERIF, 'replays')
 CORPUS_DIR = os.path.join(VERIF, 'corpus')
 ALLOWED_AXIOMS = {'propext', 'Classical.choice', 'Quot.sound'}
 
